@@ -190,3 +190,214 @@ Proof.
   exists [mk_inst (mkCfg 3 1 1) [5; 3]; mk_inst (mkCfg 3 1 1) [7; 2]; dq_inst].
   split; [repeat constructor; cbn; eauto; vm_compute; reflexivity|vm_compute; reflexivity].
 Qed.
+
+(* ====================================================================================== *)
+(* The Joint-Feldman execution link (Proofs/DkgJointLink.v): the statements above are about  *)
+(* per-instance data ([inst_rel]); the theorems below connect them to executions of the      *)
+(* Joint-Feldman machine ([joint_step]) itself.                                              *)
+(* ====================================================================================== *)
+From V Require Import Spec.DkgApiSpec Proofs.DkgC10Proofs Proofs.DkgJointLink.
+
+(* Start(seed) on a fresh instance: the own dealer instance holds the polynomial of the seed,
+   its vector, public shares and own share; the shares P(j+1) are sent to every j <> my in
+   index order, then the vector is broadcast; all other instances are untouched *)
+Theorem C07_joint_start_deals :
+  forall cf, (c_my cf < c_n cf)%nat -> forall a0,
+    seed_fails cf (SeedOk a0) = false ->
+    let a := fixpoly (c_t cf) a0 in
+    joint_start cf (joint_init cf) (SeedOk a0) = (started cf a, ROk, start_events cf a).
+Proof. exact joint_start_ok. Qed.
+Print Assumptions C07_joint_start_deals.
+
+(* ONE step: an input call (HandleBroadcastMsg / HandlePrivateMsg / NextTimeout /
+   ForceDisqualify with ANY origin and message) on a running Joint-Feldman state never panics,
+   keeps it running, and changes instance i exactly as the single-dealer Feldman-VSS-Qual step
+   with dealer i does (a refused call - state error, invalid input - is a no-op everywhere) *)
+Theorem C07_joint_step_is_fanout :
+  forall cf, (c_my cf < c_n cf)%nat -> forall s c,
+    jinv cf s -> j_jrun s = true -> is_input c = true ->
+    let '(s', res, _) := joint_step cf s c in
+    res <> RPanic /\ jinv cf s' /\ j_jrun s' = true /\
+    j_insts s' = mapi (fun i q => qcall cf i q c) 0 (j_insts s).
+Proof. exact joint_step_link. Qed.
+Print Assumptions C07_joint_step_is_fanout.
+
+(* EVERY list of input calls after a successful Start: instance i of the Joint state is the
+   state the single-dealer model with dealer i reaches on the SAME calls *)
+Theorem C07_joint_instances_are_qual_runs :
+  forall cf, (c_my cf < c_n cf)%nat -> forall a0 L,
+    seed_fails cf (SeedOk a0) = false -> forallb is_input L = true ->
+    let a := fixpoly (c_t cf) a0 in
+    let s := final (joint_step cf) (joint_init cf) (CStart (SeedOk a0) :: L) in
+    j_jrun s = true /\ j_run s = true /\ length (j_insts s) = c_n cf /\
+    (forall i, (i < c_n cf)%nat -> nth_error (j_insts s) i = Some (qrun cf i (q0 cf a i) L)) /\
+    length (run (joint_step cf) (joint_init cf) (CStart (SeedOk a0) :: L)) = S (length L) /\
+    (forall o, In o (run (joint_step cf) (joint_init cf) (CStart (SeedOk a0) :: L)) -> fst o <> RPanic).
+Proof. exact joint_instances. Qed.
+Print Assumptions C07_joint_instances_are_qual_runs.
+
+(* ... and [qrun] is literally the run of the Feldman-VSS-Qual machine of dealer i *)
+Theorem C07_qual_machine_run :
+  forall cf, (c_my cf < c_n cf)%nat -> forall i a0 L,
+    (i < c_n cf)%nat -> seed_fails cf (SeedOk a0) = false -> forallb is_input L = true ->
+    final (qual_step cf i) qual_init (CStart (SeedOk a0) :: L)
+    = mkQS true (qrun cf i (q0 cf (fixpoly (c_t cf) a0) i) L).
+Proof. exact qual_model_run. Qed.
+Print Assumptions C07_qual_machine_run.
+
+(* End: every instance is closed as by the single-dealer End ([endq]: an unanswered complaint
+   disqualifies), and the result is the failure / sum rule over the closed instances *)
+Theorem C07_joint_end_link :
+  forall cf s, j_jrun s = true -> same_to (j_insts s) true true ->
+    snd (fst (joint_end cf s)) = joint_outcome cf (map (endq cf) (j_insts s)) /\
+    j_jrun (fst (fst (joint_end cf s))) = false.
+Proof. exact joint_end_link. Qed.
+Print Assumptions C07_joint_end_link.
+
+(* the dealer side: after ANY inputs the own instance still holds the dealt polynomial, every
+   complaint received in time was answered, and it is disqualified iff [DPhi]: ForceDisqualify
+   on itself, or more than t complainers at the complaints timeout *)
+Theorem C07_own_instance :
+  forall cf, (c_my cf < c_n cf)%nat -> forall a, (exists a0 al, a = a0 :: al) ->
+  forall items, DRef cf a (annot items) (irun cf (c_my cf) (q_own cf a) items).
+Proof. exact own_refines. Qed.
+Print Assumptions C07_own_instance.
+
+(* ... and what it emits after Start, at every point of every run: no private message, and as
+   broadcasts only correct answers (the share P(c+1) of a complainer c); together with
+   C07_joint_start_deals these are the broadcasts [honest_dealer_view] expects to be delivered *)
+Theorem C07_own_instance_events :
+  forall cf, (c_my cf < c_n cf)%nat -> forall a, (exists a0 al, a = a0 :: al) ->
+  forall items, Forall (own_event_ok cf a) (irun_events cf (c_my cf) (q_own cf a) items).
+Proof. exact own_events_ok. Qed.
+Print Assumptions C07_own_instance_events.
+
+(* one participant, Start(seed) ; any input calls with both timeouts ; End: the result is
+   [joint_outcome] of instances that satisfy the per-dealer verdicts ([verdicts]: DPhi and the
+   own polynomial for the own instance, PhiEnd and the dealer's vector for the others) *)
+Theorem C07_joint_run_end :
+  forall cf, (c_my cf < c_n cf)%nat -> forall a0 L,
+    seed_fails cf (SeedOk a0) = false -> forallb is_input L = true -> ph (items_of cf L) = 2%nat ->
+    let s := final (joint_step cf) (joint_init cf) (CStart (SeedOk a0) :: L) in
+    snd (fst (joint_step cf s CEnd)) = joint_outcome cf (map (endq cf) (j_insts s)) /\
+    j_jrun (fst (fst (joint_step cf s CEnd))) = false /\
+    Forall2 (inst_rel cf) (map (endq cf) (j_insts s)) (verdicts cf a0 L).
+Proof. exact joint_run_end. Qed.
+Print Assumptions C07_joint_run_end.
+
+(* AGREEMENT ON JOINT-FELDMAN EXECUTIONS.  Two honest participants i <> j run the real machine:
+   Start(seed), then ANY input calls (any origins, any messages, any interleaving; both
+   timeouts), then End.  Network hypotheses only: [admissible] for the instance of every other
+   dealer d (honest or Byzantine), [honest_dealer_view] for the instances of i and j themselves
+   (what the other one receives from an honest dealer).  No hypothesis on instance states.
+   Conclusion: both return dkg-failure, or both return the same group key S(0) and the same
+   public shares, each with its own share of the sum S of the polynomials of the dealers both
+   kept (degree t).  The zero-own-share failure of the code is excluded explicitly. *)
+Theorem C07_joint_agreement_on_runs :
+  forall n t i j, (i < n)%nat -> (j < n)%nat -> i <> j ->
+  forall si sj Li Lj,
+    let cfi := cfg_of n t i in let cfj := cfg_of n t j in
+    seed_fails cfi (SeedOk si) = false -> seed_fails cfj (SeedOk sj) = false ->
+    forallb is_input Li = true -> forallb is_input Lj = true ->
+    let Ii := items_of cfi Li in let Ij := items_of cfj Lj in
+    ph Ii = 2%nat -> ph Ij = 2%nat ->
+    let inputs := fun k => if Nat.eqb k i then Ii else Ij in
+    (forall d, (d < n)%nat -> d <> i -> d <> j -> admissible n t d [i; j] inputs) ->
+    honest_dealer_view n t i j (fixpoly t si) Ii Ij ->
+    honest_dealer_view n t j i (fixpoly t sj) Ij Ii ->
+    let end_i := final (joint_step cfi) (joint_init cfi) (CStart (SeedOk si) :: Li) in
+    let end_j := final (joint_step cfj) (joint_init cfj) (CStart (SeedOk sj) :: Lj) in
+    let res_i := snd (fst (joint_step cfi end_i CEnd)) in
+    let res_j := snd (fst (joint_step cfj end_j CEnd)) in
+    let S := psum t (somes (verdicts cfi si Li)) in
+    peval S (Z.of_nat i + 1) <> 0 -> peval S (Z.of_nat j + 1) <> 0 ->
+    (res_i = RFailure /\ res_j = RFailure) \/
+    (exists x x' ys,
+       res_i = RKeys x (peval S 0) ys /\ res_j = RKeys x' (peval S 0) ys /\
+       ys = pubkeys cfi S /\ nth_error ys i = Some x /\ nth_error ys j = Some x' /\
+       length S = Datatypes.S t).
+Proof. exact joint_agreement_on_runs. Qed.
+Print Assumptions C07_joint_agreement_on_runs.
+
+(* the two participants reach the same verdict and vector for EVERY dealer *)
+Theorem C07_joint_verdicts_agree :
+  forall n t i j, (i < n)%nat -> (j < n)%nat -> i <> j ->
+  forall si sj Li Lj,
+    let cfi := cfg_of n t i in let cfj := cfg_of n t j in
+    let Ii := items_of cfi Li in let Ij := items_of cfj Lj in
+    ph Ii = 2%nat -> ph Ij = 2%nat ->
+    let inputs := fun k => if Nat.eqb k i then Ii else Ij in
+    (forall d, (d < n)%nat -> d <> i -> d <> j -> admissible n t d [i; j] inputs) ->
+    honest_dealer_view n t i j (fixpoly t si) Ii Ij ->
+    honest_dealer_view n t j i (fixpoly t sj) Ij Ii ->
+    verdicts cfj sj Lj = verdicts cfi si Li.
+Proof. exact verdicts_agree. Qed.
+Print Assumptions C07_joint_verdicts_agree.
+
+(* ---- non-vacuity of the execution theorems: n = 3, t = 1, participants 0 and 1 honest with
+   seeds [5;3] and [7;2], dealer 2 silent (disqualified by both: no vector at the shares
+   timeout); some refused calls (origin out of range) are mixed in.  All hypotheses of
+   C07_joint_agreement_on_runs hold, and the real machine returns at both participants the group
+   key 12 = 5 + 7 and the public shares of S = 12 + 5 X, each with its own share ---- *)
+Definition ex_L0 : list call :=
+  [CBroadcast 1 (MVec (VOk [7; 2])); CForce 7; CPrivate 1 (MShare (SVal 9)); CNextTimeout; CNextTimeout].
+Definition ex_L1 : list call :=
+  [CPrivate 0 (MShare (SVal 11)); CBroadcast 0 (MVec (VOk [5; 3])); CNextTimeout; CBroadcast 9 MEmpty; CNextTimeout].
+
+Ltac comp_annot :=
+  repeat match goal with |- context [annot (items_of ?cf ?L)] =>
+    let A := eval vm_compute in (annot (items_of cf L)) in change (annot (items_of cf L)) with A end;
+  repeat match goal with |- context [fixpoly ?t ?l] =>
+    let a := eval vm_compute in (fixpoly t l) in change (fixpoly t l) with a end.
+
+Ltac in_cases H := cbn [In] in H; repeat (destruct H as [H|H]; try discriminate H); try contradiction.
+
+Ltac hd_view :=
+  unfold honest_dealer_view; comp_annot;
+  split; [|split; [vm_compute; reflexivity|split; [|vm_compute; reflexivity]]];
+  [ unfold honest_dealer_log; cbn [cfg_of c_n c_t c_my];
+    split; [vm_compute; reflexivity|];
+    split; [intros k m H; in_cases H; inversion H; subst; left; split; reflexivity|];
+    split; [cbn [In]; auto 10|];
+    split; [intros k m H; in_cases H; inversion H; subst; split; vm_compute; reflexivity|];
+    split; [exists 0%nat; vm_compute; auto 10|];
+    split; [vm_compute; reflexivity|];
+    intros c Hc; destruct c as [|[|[|c]]]; [vm_compute; reflexivity ..|lia]
+  | let c := fresh "c" in intro c; unfold keyF, complained; cbn [cfg_of c_my];
+    match goal with |- context [Nat.eqb c ?p] => destruct (Nat.eqb c p) end; vm_compute; reflexivity ].
+
+Example C07_joint_agreement_nonvacuous :
+  let cf0 := cfg_of 3 1 0 in let cf1 := cfg_of 3 1 1 in
+  let I0 := items_of cf0 ex_L0 in let I1 := items_of cf1 ex_L1 in
+  let inputs := fun k => if Nat.eqb k 0 then I0 else I1 in
+  let end_0 := final (joint_step cf0) (joint_init cf0) (CStart (SeedOk [5; 3]) :: ex_L0) in
+  let end_1 := final (joint_step cf1) (joint_init cf1) (CStart (SeedOk [7; 2]) :: ex_L1) in
+  let S := psum 1 (somes (verdicts cf0 [5; 3] ex_L0)) in
+  (seed_fails cf0 (SeedOk [5; 3]) = false /\ seed_fails cf1 (SeedOk [7; 2]) = false /\
+   forallb is_input ex_L0 = true /\ forallb is_input ex_L1 = true /\
+   ph I0 = 2%nat /\ ph I1 = 2%nat) /\
+  (forall d, (d < 3)%nat -> d <> 0%nat -> d <> 1%nat -> admissible 3 1 d [0%nat; 1%nat] inputs) /\
+  honest_dealer_view 3 1 0 1 (fixpoly 1 [5; 3]) I0 I1 /\
+  honest_dealer_view 3 1 1 0 (fixpoly 1 [7; 2]) I1 I0 /\
+  (peval S (Z.of_nat 0 + 1) <> 0 /\ peval S (Z.of_nat 1 + 1) <> 0) /\
+  verdicts cf0 [5; 3] ex_L0 = [Some [5; 3]; Some [7; 2]; None] /\
+  snd (fst (joint_step cf0 end_0 CEnd)) = RKeys 17 12 [17; 22; 27] /\
+  snd (fst (joint_step cf1 end_1 CEnd)) = RKeys 22 12 [17; 22; 27].
+Proof.
+  cbn zeta.
+  split; [repeat split; vm_compute; reflexivity|].
+  split.
+  { intros d Hd H0 H1. assert (d = 2%nat) by lia. subst d. clear Hd H0 H1.
+    assert (Hmem : forall i, In i [0%nat; 1%nat] -> i = 0%nat \/ i = 1%nat) by (intros i [E|[E|[]]]; auto).
+    unfold admissible. split; [|split; [|split; [|split]]].
+    - intros i Hi. destruct (Hmem i Hi) as [->| ->]; vm_compute; repeat split; try lia; discriminate.
+    - intros i j Hi Hj. destruct (Hmem i Hi) as [->| ->]; destruct (Hmem j Hj) as [->| ->]; vm_compute; reflexivity.
+    - intros i j c Hi Hj Hci Hcj. destruct (Hmem i Hi) as [->| ->]; destruct (Hmem j Hj) as [->| ->]; try reflexivity;
+        destruct c as [|[|[|c]]]; try (exfalso; auto; fail); vm_compute; reflexivity.
+    - intros i j Hi Hj Hij. destruct (Hmem i Hi) as [->| ->]; destruct (Hmem j Hj) as [->| ->];
+        try (exfalso; auto; fail); vm_compute; reflexivity.
+    - intros i j Hi Hj. destruct (Hmem i Hi) as [->| ->]; destruct (Hmem j Hj) as [->| ->]; vm_compute; reflexivity. }
+  split; [hd_view|]. split; [hd_view|].
+  split; [split; vm_compute; discriminate|].
+  split; [vm_compute; reflexivity|]. split; vm_compute; reflexivity.
+Qed.
